@@ -336,17 +336,21 @@ def program(prog):
     o = Out()
     for d in prog.get("pre", []):
         o.emit(d)
+    # "types_after": the TYPE blocks stand after that many statements of the main module (constants used as lengths
+    # must be defined first)
+    k0 = prog.get("types_after", 0)
+    body(o, prog["main"][:k0], 0)
     for td in prog.get("types", []):
         o.emit("TYPE " + td["n"])
         for fd in td["fields"]:
             if fd["t"] == "U":
                 o.emit("  " + fd["n"] + " AS " + fd["ty"])
             elif fd["t"] == "$":
-                o.emit("  " + fd["n"] + " AS STRING * %d" % fd["fix"])
+                o.emit("  " + fd["n"] + " AS STRING * " + (fd.get("fixtext") or "%d" % fd["fix"]))
             else:
                 o.emit("  " + fd["n"] + " AS " + TYPENAME[fd["t"]])
         o.emit("END TYPE")
-    body(o, prog["main"], 0)
+    body(o, prog["main"][k0:], 0)
     for sub in prog.get("subs", []):
         params = ", ".join((p["n"] + " AS " + p["ty"]) if p["t"] == "U" else (p["n"] + SUFFIX[p["t"]])
                            for p in sub["params"])
